@@ -251,7 +251,7 @@ fn main() {
           (6, 6, 0.0, 3, 1), (7, 6, 0.0, 1, 2)]
     } else {
         &[(1, 3, 30.0, 12, 1), (2, 3, 30.0, 12, 1), (3, 3, 30.0, 12, 1), (4, 3, 30.0, 3, 1), (5, 3, 30.0, 3, 1),
-          (6, 4, 0.0, 1, 1), (7, 4, 0.0, 1, 4)]
+          (6, 4, 0.0, 1, 1), (7, 4, 0.0, 1, 8)]
     };
     for &(n, vmax, cap, k, stride) in plan2 {
         let mut nr = 0usize;
